@@ -119,6 +119,20 @@ CLAIMED = {
             '(never in A\'s, never dead). Sampling, not proof.',
             'One fixed corpus unit (programs clause is not generated); operations address nodes by position; an '
             'operation that raises on both the shared and the solo copy is inconclusive.'),
+    'C19': ('regexworld', 'DESIGN.md sec. 5 (C19)',
+            'deterministic simulation (history clause): seeded sequences of incremental REGEX re-parse requests '
+            '(target unit and parser-class subset chosen by the simulator) against one shared lazily parsed source '
+            'file; confluence oracle against a one-shot parse. Program clause only sampled (one-shot REGEX vs FP on '
+            'generated layouts)',
+            'Decided by simulation: for generated files and request histories (<= 10 requests to file / module / '
+            'routine / internal routine with 1-3 classes, arbitrary initial classes, repeats) the discovery summary '
+            'after a final AllClasses request equals the one-shot parse, and after each request the target\'s own '
+            'imports / calls / typedefs+bindings / interfaces of the requested kinds equal the one-shot ones. Only '
+            'sampled: summary(REGEX) == summary(FP) on the generated layouts (continuation lines, semicolons, inline '
+            'IF, keywords in comments and strings, labels, letter case, :: in USE, renames, bindings, interfaces, '
+            'internal procedures, several units per file). Sampling, not proof.',
+            'Object identity of units across requests (documented by make_complete) is only counted as a probe, the '
+            'statement speaks about what is reported. Function references are not part of the summary.'),
 }
 
 NA_COMMON = ('pure function of (source text / IR, options, valuations): no scheduler, clock, fault, shared state '
